@@ -3,8 +3,8 @@
     Caco/NamesProofs.v, Caco/FileSetProofs.v or Caco/NamesGen.v.  All
     statements quantify over arbitrary byte strings. *)
 From Coq Require Import List NArith Bool String.
-From Verif Require Import Lib.Path Caco.Names Caco.NamesProofs Caco.FileSet Caco.FileSetProofs
-  Caco.NamesGen Gen.CacoConsts.
+From Verif Require Import Lib.Path Lib.Utf8 Caco.Names Caco.NamesProofs Caco.Match Caco.MatchProofs Caco.FileSet Caco.FileSetProofs
+  Caco.NamesGenDefs Caco.NamesGen Gen.CacoConsts.
 Import ListNotations.
 Local Open Scope N_scope.
 
@@ -53,6 +53,21 @@ Theorem C12_rel_name_inside_package : forall p f,
   exists rest, rel_segs (make_rel_path p f) = rel_segs p ++ rest /\ forallb goodb rest = true.
 Proof. exact make_rel_path_inside. Qed.
 Print Assumptions C12_rel_name_inside_package.
+
+(** Every package path the loader uses is such a resolved name — the
+    repo-map keys of the WORKSPACE file through [makeRelPath("", key)], the
+    sub-build directories through [makeRelPath(p, d)] (the resolver-call table
+    of [C12_source_as_modelled]) — hence clean, whatever "..", "./" or "//" the
+    key carries; the premise of [C12_rel_name_inside_package] is met. *)
+Theorem C12_package_paths_are_clean : forall key p d,
+  clean_relb (make_rel_path [] key) = true /\
+  rel_segs (make_rel_path [] key) = rsegs key /\
+  clean_relb (make_rel_path p d) = true.
+Proof.
+  exact (fun key p d => conj (make_rel_path_clean [] key)
+           (conj (make_rel_path_segs [] key) (make_rel_path_clean p d))).
+Qed.
+Print Assumptions C12_package_paths_are_clean.
 
 (** [makePath]: absolute names resolve from the workspace root, others from
     the package; clean either way. *)
@@ -103,19 +118,22 @@ Theorem C12_file_set_exact : forall sb tree p r name files,
   name = make_rel_path p (r_name r) /\
   sortedb files = true /\
   (forall sel, In sel (r_select r) ->
-     exists ms, ms <> [] /\ select_matches gen_excl sb tree p sel = Some ms) /\
+     exists ms, ms <> [] /\ select_matches gen_excl sb tree p sel = SOk ms) /\
   forall f, In f files <->
     (exists e, In e (r_files r) /\ f = make_path p e) \/
-    exists sel ms, In sel (r_select r) /\ select_matches gen_excl sb tree p sel = Some ms /\
+    exists sel ms, In sel (r_select r) /\ select_matches gen_excl sb tree p sel = SOk ms /\
                    In f ms /\ ignored p r f = false.
 Proof. exact (file_set_exact gen_excl). Qed.
 Print Assumptions C12_file_set_exact.
 
-Theorem C12_file_set_error : forall sb tree p r,
-  (forall sel, file_set gen_excl sb tree p r = FsNoFiles sel ->
-     In sel (r_select r) /\ select_matches gen_excl sb tree p sel = Some []) /\
-  (forall sel, file_set gen_excl sb tree p r = FsListErr sel ->
-     In sel (r_select r) /\ select_matches gen_excl sb tree p sel = None).
+(** A failing rule: some selection matched nothing, could not be listed, or
+    is a malformed pattern ([filepath.Glob]'s ErrBadPattern). *)
+Theorem C12_file_set_error : forall sb tree p r e,
+  file_set gen_excl sb tree p r = FsErr e ->
+  exists sel, In sel (r_select r) /\
+    ((e = SelNoFiles sel /\ select_matches gen_excl sb tree p sel = SOk []) \/
+     (e = SelListErr sel /\ select_matches gen_excl sb tree p sel = SListErr) \/
+     (e = SelGlobErr sel /\ select_matches gen_excl sb tree p sel = SGlobErr)).
 Proof. exact (file_set_error gen_excl). Qed.
 Print Assumptions C12_file_set_error.
 
@@ -126,7 +144,7 @@ Theorem C12_ignored_exact : forall p r f,
   (exists i, In i (r_ignore r) /\ ends_with_slash i = true /\
              under_ignored_dir f (make_rel_path p i) = true) \/
   (exists i, In i (r_ignore r) /\ ends_with_slash i = false /\
-             gmatch (make_rel_path p i) f = true).
+             matches (make_rel_path p i) f = true).
 Proof. exact ignored_spec. Qed.
 Print Assumptions C12_ignored_exact.
 
@@ -140,16 +158,117 @@ Theorem C12_dir_ignore_is_segmentwise : forall p i x,
 Proof. exact dir_ignore_is_segmentwise. Qed.
 Print Assumptions C12_dir_ignore_is_segmentwise.
 
-(** '*' and '?' never match across a directory separator. *)
-Theorem C12_patterns_never_cross_slash : forall pat s,
-  gmatch pat s = true -> count_slash pat = count_slash s.
-Proof. exact gmatch_same_depth. Qed.
+(** ** Patterns: Go's path.Match in full *)
+
+(** Matching is total (the recursion budget of the model always suffices)
+    and [ErrBadPattern] depends on the pattern alone, never on the name. *)
+Theorem C12_match_total : forall pat name, go_match pat name <> MFuel.
+Proof. exact go_match_no_fuel. Qed.
+Print Assumptions C12_match_total.
+
+Theorem C12_bad_pattern_is_about_the_pattern : forall pat name,
+  go_match pat name = MBad <-> well_formed pat = false.
+Proof. exact go_match_bad_iff. Qed.
+Print Assumptions C12_bad_pattern_is_about_the_pattern.
+
+(** A malformed ignore pattern (logged by the code) ignores nothing. *)
+Theorem C12_bad_ignore_matches_nothing : forall pat name,
+  well_formed pat = false -> matches pat name = false.
+Proof. exact matches_bad. Qed.
+Print Assumptions C12_bad_ignore_matches_nothing.
+
+(** What [Match] accepts is a match in the declarative reading of the
+    pattern (chunks of one-rune items separated by '/'-free gaps). *)
+Theorem C12_match_sound : forall pat name chunks,
+  parse_pattern pat = POk chunks -> go_match pat name = MTrue -> dmatch chunks name = true.
+Proof. exact go_match_sound. Qed.
+Print Assumptions C12_match_sound.
+
+(** The converse (the greedy chunk loop finds every declarative match) is
+    not proved; it is exercised by the exhaustive small-pattern stream. *)
+Definition stmt_match_complete : Prop := forall pat name chunks,
+  parse_pattern pat = POk chunks -> dmatch chunks name = true -> go_match pat name = MTrue.
+
+(** '*' and '?' never match across a directory separator: a matched name has
+    exactly the literal '/'s of the pattern, plus at most one per character
+    class (Go's classes do match '/'). *)
+Theorem C12_patterns_never_cross_slash : forall pat name chunks,
+  parse_pattern pat = POk chunks -> go_match pat name = MTrue ->
+  (chunks_slashes chunks <= count_slash name <= chunks_slashes chunks + chunks_classes chunks)%nat.
+Proof. exact go_match_slashes. Qed.
 Print Assumptions C12_patterns_never_cross_slash.
 
-Theorem C12_literal_pattern_is_equality : forall pat s,
-  literalb pat = true -> gmatch pat s = str_eqb pat s.
-Proof. exact gmatch_literal. Qed.
+Theorem C12_classless_patterns_keep_depth : forall pat name chunks,
+  parse_pattern pat = POk chunks -> chunks_classes chunks = 0%nat -> go_match pat name = MTrue ->
+  count_slash name = chunks_slashes chunks.
+Proof. exact go_match_same_depth. Qed.
+Print Assumptions C12_classless_patterns_keep_depth.
+
+Theorem C12_literal_pattern_is_equality : forall pat name,
+  has_meta pat = false -> go_match pat name = if str_eqb pat name then MTrue else MFalse.
+Proof. exact go_match_literal. Qed.
 Print Assumptions C12_literal_pattern_is_equality.
+
+(** [filepath.Match] (used by [filepath.Glob]) accepts exactly what
+    [path.Match] accepts; it only reports fewer malformed patterns: on
+    well-formed patterns the two agree. *)
+Theorem C12_filepath_match_true : forall pat name,
+  fp_match pat name = MTrue -> go_match pat name = MTrue.
+Proof. exact fp_match_true_go. Qed.
+Print Assumptions C12_filepath_match_true.
+
+Theorem C12_filepath_match_agrees : forall pat name,
+  well_formed pat = true -> fp_match pat name = go_match pat name.
+Proof. exact fp_match_well_formed. Qed.
+Print Assumptions C12_filepath_match_agrees.
+
+(** '?' and a class take exactly one rune, however many bytes it has. *)
+Theorem C12_qmark_takes_one_rune : forall r rest,
+  valid_rune r = true -> r <> slash ->
+  match_items [IAny] (encode_rune r ++ rest) = Some rest.
+Proof. exact qmark_takes_one_rune. Qed.
+Print Assumptions C12_qmark_takes_one_rune.
+
+Theorem C12_class_takes_one_rune : forall neg rs r rest,
+  valid_rune r = true ->
+  match_items [IClass neg rs] (encode_rune r ++ rest) =
+  if Bool.eqb (in_ranges r rs) neg then None else Some rest.
+Proof. exact class_takes_one_rune. Qed.
+Print Assumptions C12_class_takes_one_rune.
+
+(** A glob selection is element-wise: every listed path has as many elements
+    as the pattern and each is matched by its pattern element. *)
+Theorem C12_glob_is_elementwise : forall tree segs_rev ms,
+  nonempty_all segs_rev = true ->
+  glob_rev tree segs_rev = Some ms ->
+  forall m, In m ms ->
+  exists names, m = join_slash names /\ nonempty_all names = true /\
+                Forall2 (fun seg n => fp_matches seg n = true) (rev segs_rev) names.
+Proof. exact glob_rev_elementwise. Qed.
+Print Assumptions C12_glob_is_elementwise.
+
+(** ** Symbolic links in the source tree *)
+
+(** [listAllFiles] never descends a symbolic link: between the listing root
+    and a listed path there are only real directories. (Links themselves are
+    listed by name; nothing is read through them at this stage.) *)
+Theorem C12_recursive_listing_never_follows_links : forall sb tree R l f,
+  list_all gen_excl sb tree R = Some l -> In f l ->
+  f = R \/
+  forall q, In q (dirs_between f R) ->
+    exists e, find_entry tree q = Some e /\ t_kind e = TDir.
+Proof. exact (list_all_no_follow gen_excl). Qed.
+Print Assumptions C12_recursive_listing_never_follows_links.
+
+(** The same does NOT hold of glob selections, of the root of a recursive
+    selection, or of explicitly named files: [filepath.Glob] stats
+    directories through links and the kernel resolves the directory part of
+    any name.  Kept as a statement; refuted by the example below (the open
+    finding of known_findings/C12.json). *)
+Definition stmt_selection_never_passes_a_link : Prop := forall sb tree p r name files f,
+  file_set gen_excl sb tree p r = FsOk name files -> In f files ->
+  forall q, In q (dirs_between f []) ->
+    exists e, find_entry tree q = Some e /\ t_kind e = TDir.
 
 (** ** The model is the current source *)
 
@@ -181,13 +300,15 @@ Example C12_nonvacuous_names :
   make_rel_path [] [] = [] /\
   clean_relb (bs "pkg/sub") = true /\
   dir_file_path (bs "/w/src") [make_rel_path (bs "a") (bs "../..")] = bs "/w/src/a" /\
+  make_rel_path [] (bs "../../outside") = bs "outside" /\
+  make_rel_path (bs "../vendor/lib") (bs "x") = bs "vendor/lib/x" /\
   nsegs (bs "../s/./t/..") = [bs ".."; bs "s"].
 Proof. vm_compute. repeat split. Qed.
 
 Definition ex_tree : list tentry :=
-  [ {| t_path := bs "dir"; t_dir := true |}; {| t_path := bs "dir/a.txt"; t_dir := false |};
-    {| t_path := bs "dir2"; t_dir := true |}; {| t_path := bs "dir2/b.txt"; t_dir := false |};
-    {| t_path := bs "dirfile"; t_dir := false |} ].
+  [ {| t_path := bs "dir"; t_kind := TDir |}; {| t_path := bs "dir/a.txt"; t_kind := TFile |};
+    {| t_path := bs "dir2"; t_kind := TDir |}; {| t_path := bs "dir2/b.txt"; t_kind := TFile |};
+    {| t_path := bs "dirfile"; t_kind := TFile |} ].
 
 Example C12_nonvacuous_file_set :
   file_set gen_excl (bs "src") ex_tree []
@@ -198,7 +319,13 @@ Example C12_nonvacuous_file_set :
   = FsOk (bs "fs") [bs "dir2/b.txt"] /\
   file_set gen_excl (bs "src") ex_tree []
     {| r_name := bs "fs"; r_files := []; r_select := [bs "nope/*"]; r_ignore := [] |}
-  = FsNoFiles (bs "nope/*").
+  = FsErr (SelNoFiles (bs "nope/*")) /\
+  file_set gen_excl (bs "src") ex_tree []
+    {| r_name := bs "fs"; r_files := []; r_select := [bs "dir[2-"]; r_ignore := [] |}
+  = FsErr (SelGlobErr (bs "dir[2-")) /\
+  file_set gen_excl (bs "src") ex_tree []
+    {| r_name := bs "fs"; r_files := []; r_select := [bs "dir[0-9]/?.txt"]; r_ignore := [bs "[" ] |}
+  = FsOk (bs "fs") [bs "dir2/b.txt"].
 Proof. vm_compute. repeat split. Qed.
 
 (** The plain string-prefix test the code used before the repair does not
@@ -209,4 +336,38 @@ Example C12_plain_prefix_refuted :
   has_prefix (bs "dirfile") (make_rel_path [] (bs "dir/")) = true /\
   under_ignored_dir (bs "dirfile") (make_rel_path [] (bs "dir/")) = false /\
   under_ignored_dir (bs "dir/a.txt") (make_rel_path [] (bs "dir/")) = true.
+Proof. vm_compute. repeat split. Qed.
+
+(** Patterns: classes, escapes, multi-byte runes, bad patterns; and the Go
+    quirk that a class can match '/'. *)
+Example C12_nonvacuous_patterns :
+  go_match (bs "a[b-d]*\*?") (bs "acxx*x") = MTrue /\
+  go_match (bs "a[b-d]*\*?") (bs "ac/*x") = MFalse /\
+  go_match (bs "[]a]") (bs "a") = MBad /\ go_match (bs "a[") (bs "zzz") = MBad /\
+  go_match (bs "\") (bs "x") = MBad /\
+  go_match (bs "?") [195; 169] = MTrue /\ go_match (bs "??") [195; 169] = MFalse /\
+  go_match [91; 195; 160; 45; 195; 191; 93] [195; 169] = MTrue /\
+  go_match (bs "[^a]") (bs "/") = MTrue /\
+  go_match (bs "d[^a]x") (bs "d/x") = MTrue /\
+  go_match (bs "*") (bs "d/x") = MFalse /\
+  go_match (bs "a*[") (bs "b") = MBad /\ fp_match (bs "a*[") (bs "b") = MFalse /\
+  fp_match (bs "a*[") (bs "ab") = MBad.
+Proof. vm_compute. repeat split. Qed.
+
+(** A source tree with [ld -> ../outside] (a directory outside the
+    workspace, seen through the link as [ld/secret.txt]): the recursive
+    listing stops at the link, a glob goes through it. *)
+Definition ex_link_tree : list tentry :=
+  [ {| t_path := bs "a.txt"; t_kind := TFile |}; {| t_path := bs "ld"; t_kind := TLinkDir |};
+    {| t_path := bs "ld/secret.txt"; t_kind := TFile |}; {| t_path := bs "lo"; t_kind := TLinkFile |} ].
+
+Example C12_selection_passes_a_link_refuted :
+  file_set gen_excl (bs "src") ex_link_tree []
+    {| r_name := bs "fs"; r_files := []; r_select := [bs "**"]; r_ignore := [] |}
+  = FsOk (bs "fs") [bs "a.txt"; bs "ld"; bs "lo"] /\
+  file_set gen_excl (bs "src") ex_link_tree []
+    {| r_name := bs "fs"; r_files := []; r_select := [bs "ld/*"]; r_ignore := [] |}
+  = FsOk (bs "fs") [bs "ld/secret.txt"] /\
+  find_entry ex_link_tree (bs "ld") = Some {| t_path := bs "ld"; t_kind := TLinkDir |} /\
+  dirs_between (bs "ld/secret.txt") [] = [bs "ld"].
 Proof. vm_compute. repeat split. Qed.
